@@ -422,6 +422,9 @@ func (r *run) bcresult(c, nonce int, success bool, cr *callRec, timeout bool) {
 	w := r.w
 	exp := map[[2]int]int{}
 	var wd []tok
+	if timeout {
+		success = false
+	}
 	if cr != nil {
 		if success {
 			wd = cr.ts
